@@ -20,6 +20,7 @@ run_one() { # name patch expect props
   for p in $ps; do
     BXV_REPO=$wt BXV_OUT_BASE=$out/out-$name /verif/bin/bxv check --property $p > $out/$name-$p.log 2>&1
     rc=$?
+    if grep -q "cannot load" $out/$name-$p.log; then echo "BROKEN $name: does not compile any more (rebase the patch)"; fail=1; fi
     if [ $rc -ne 0 ]; then viol="$viol $p($(grep -c VIOLATION $out/$name-$p.log))"; fi
   done
   git -C /repo worktree remove --force $wt
